@@ -161,6 +161,30 @@ def close (strict hadConnection : Bool) (w : World) : World :=
   let w := { w with alive := false }
   if !hadConnection then w else { w with objs := w.objs.map (detach strict) }
 
+/-- how a db_session can end -/
+inductive How
+  | commit          -- normal exit: commit() succeeds, then `cache.release()`
+  | rollback        -- rollback() in the body
+  | error           -- an exception in the body: `rollback()` at the exit
+  | commitFailed    -- the COMMIT sent by `provider.commit` at the exit raises (fault, 'database is locked')
+  | flushFailed     -- the flush inside the exit's commit() (or an explicit one) raises: `rollback_and_reraise`
+  deriving DecidableEq, Repr, Inhabited
+
+/-- `SessionCache.commit`: `try: … if cache.in_transaction: provider.commit(connection, cache) … except: cache.rollback(); raise`.
+    (`SQLiteProvider.commit` clears `cache.in_transaction` in its `finally` even when COMMIT raises, so the except path must not
+    look at that flag.)  Returns the world and whether the exception propagates. -/
+def cacheCommit (inTransaction commitRaises strict hadConnection : Bool) (w : World) : World × Bool :=
+  if inTransaction && commitRaises then (close strict hadConnection w, true) else (w, false)
+
+/-- the end of the outermost db_session, by the path taken -/
+def endSession (how : How) (inTransaction strict hadConnection : Bool) (w : World) : World :=
+  match how with
+  | .commit => close strict hadConnection (cacheCommit inTransaction false strict hadConnection w).1          -- then `cache.release()`
+  | .commitFailed =>
+    let r := cacheCommit inTransaction true strict hadConnection w
+    if r.2 then r.1 else close strict hadConnection r.1          -- nothing written: no COMMIT is sent, nothing fails, `release()`
+  | .rollback | .error | .flushFailed => close strict hadConnection w
+
 /-! ### guards and helpers -/
 
 /-- `cache is None or not cache.is_alive` -/
